@@ -129,7 +129,8 @@ def client_loop(cl, rec, cid, nops, rnd, stop, stats, pinned=None, barrier=None)
 def scenario(args):
     name, n, faults, nclients, nops, idx = args
     rnd = random.Random(seed * 1000 + idx)
-    cl = cluster.Cluster(n, trace=name.startswith("pinned")).start_all()
+    membership = name.startswith("membership")
+    cl = cluster.Cluster(n, trace=name.startswith("pinned"), join_later=1 if membership else 0).start_all()
     rec = Recorder(idx)
     stats = {"answered": 0, "unanswered": 0, "faults": []}
     killed_by_us = set()
@@ -155,10 +156,34 @@ def scenario(args):
             threads = [threading.Thread(target=client_loop, args=(cl, rec, c, nops, random.Random(rnd.random()), stop, stats)) for c in range(nclients)]
         for t in threads:
             t.start()
+        removed = set()
         for f in faults:
             time.sleep(0.6 + rnd.random() * 0.8)
             victim = rnd.choice(cl.nodes[:n])
-            if f == "kill-restart":
+            if f == "add-node":
+                new = cl.nodes[n]
+                try:
+                    c = cl.nodes[0].client(timeout=5.0)
+                    c.cmd("RCONF", "add", str(new.id), "http://127.0.0.1:%d" % new.raft_port)
+                    c.close()
+                except Exception:
+                    pass
+                time.sleep(0.5)
+                cl.start_node(new, join=True, peers=cl.peers(n + 1))
+                stats["faults"].append("RCONF add %d + join" % new.id)
+                cl.wait_serving(nodes=[new], timeout=40)
+            elif f == "remove-node":
+                gone = cl.nodes[n - 1]      # remove the highest-numbered original member
+                try:
+                    c = cl.nodes[0].client(timeout=5.0)
+                    c.cmd("RCONF", "delete", str(gone.id))
+                    c.close()
+                except Exception:
+                    pass
+                removed.add(gone.id)
+                stats["faults"].append("RCONF delete %d" % gone.id)
+                time.sleep(1.0)
+            elif f == "kill-restart":
                 killed_by_us.add(victim.id)
                 cl.kill(victim)
                 stats["faults"].append("kill node %d" % victim.id)
@@ -175,7 +200,8 @@ def scenario(args):
             t.join(timeout=120)
         stop.set()
         # unexpected deaths
-        for nd in cl.nodes[:n]:
+        members = [nd for nd in cl.nodes if nd.id not in removed and (nd.p is not None)]
+        for nd in members:
             if not nd.alive():
                 result["violations"].append(({"branch": "cluster.node", "kind": "node-died", "detail": name},
                                              {"scenario": name, "faults": stats["faults"], "log": cl.tail(nd, 2500)},
@@ -196,10 +222,10 @@ def scenario(args):
             else:
                 result["inconclusive"] = why
             return result
-        if cl.wait_serving(timeout=60) is None:
+        if cl.wait_serving(nodes=members, timeout=60) is None:
             return wedged("the cluster does not serve any more after the client load")
         # read every key back through every node (sequential operations at the end of the history)
-        for nd in cl.nodes[:n]:
+        for nd in members:
             c = nd.client(timeout=6.0)
             for argv in (["GET", "ctr"], ["GET", "reg"], ["LRANGE", "lst", "0", "-1"], ["SMEMBERS", "st"], ["GET", "app"], ["GET", "once"], ["HGET", "h", "n"], ["GET", "sp"]):
                 op = rec.new_op(argv)
@@ -217,10 +243,11 @@ def scenario(args):
 
 if tier == "quick":
     plan = [("steady", 3, [], 6, 20), ("follower-or-leader-kill", 3, ["kill-restart"], 5, 25), ("pause", 3, ["pause"], 5, 20),
-            ("pinned-one-client-per-node", 3, [], 3, 40)]
+            ("pinned-one-client-per-node", 3, [], 3, 40), ("membership-add-remove", 3, ["add-node", "remove-node"], 5, 40)]
 else:
     plan = [("steady", 3, [], 8, 30), ("steady-5", 5, [], 8, 25), ("pinned-one-client-per-node", 3, [], 3, 60), ("pinned-5", 5, [], 5, 40),
-            ("pinned-then-kill", 3, ["kill-restart"], 3, 60)] + [("kill-restart", 3, ["kill-restart"], 5, 30)] * 4 + \
+            ("pinned-then-kill", 3, ["kill-restart"], 3, 60), ("membership-add-remove", 3, ["add-node", "remove-node"], 6, 60),
+            ("membership-add-kill-remove", 3, ["add-node", "kill-restart", "remove-node"], 6, 70)] + [("kill-restart", 3, ["kill-restart"], 5, 30)] * 4 + \
            [("two-kills", 3, ["kill-restart", "kill-restart"], 5, 35)] * 3 + [("pause", 3, ["pause"], 5, 25)] * 2 + \
            [("kill-5", 5, ["kill-restart", "pause", "kill-restart"], 6, 30)] * 2
 jobs = [(name, n, faults, nc, nops, i + 1) for i, (name, n, faults, nc, nops) in enumerate(plan)]
